@@ -487,10 +487,10 @@ def selftest(ctx, obs):
 def run(ctx):
     quick = ctx.tier == "quick"
     binp = build_harness(ctx)
-    msgs, spans = regen(ctx, ["grid"])
-    ctx.cov["translated_spans"] = {k: v for k, v in spans.items() if k.startswith("grid.")}
+    msgs, spans = regen(ctx, ["grid", "ranges"])
+    ctx.cov["translated_spans"] = {k: v for k, v in spans.items() if k.startswith("grid.") or k.startswith("ranges.")}
     for m in msgs:
-        ctx.proof_failures.append(("Gen/Grid.v", "translator", m))
+        ctx.proof_failures.append(("Gen/Ranges.v" if "generator ranges" in m else "Gen/Grid.v", "translator", m))
     proved = (not msgs) and prove(ctx, "C14", extra_targets=["Model/GridCheck.vo", "Proofs/C14_casetac.vo"])
     # the finding's witnesses: built separately, a failure here is only a note (a repaired tree must not alarm)
     okf, _, _ = coq_build(ctx, ["Findings/C14_transpose.vo"]) if not msgs else (False, [], "")
@@ -527,7 +527,8 @@ def run(ctx):
         "1-D/2-D from either end, any interleaving": "proved (any carrier, generated next/next_back)",
         "2-D: nx*ny points, first axis fastest": "proved (any carrier: exact)",
         "index maps mutually inverse": "proved",
-        "range evaluators = pointwise, in grid order": "validated_only here (bit-exact Rust-vs-Rust); schedule independence is C15",
+        "range evaluators = pointwise, in grid order": "proved for the generated call table (every *_range maps its point function over the range's points, argument order pinned) "
+                                                       "+ C15_collect for the parallel collect; JointSpectrum point functions themselves validated bit-exact Rust-vs-Rust",
         "flat (signal, idler) list = grid": "proved for the pairing model (chunk2/flatten2) + validated bit-exact",
         "wavelength <-> frequency endpoints, ascending, round trip": "proved (reals) + interval correspondence 1e-14",
         "frequency <-> sum/diff centre, counts, round trip iff equal spans": "proved (iff, both directions, plus idempotence)",
